@@ -389,3 +389,46 @@ func VerifC20Chain() {
 	vassert(e1 == nil && e2 == nil, "chain runs before and after a late Append attempt")
 	vassert(vMapEq(out1, out2), "a compiled chain is unaffected by later Append calls")
 }
+
+// Workflow: entry / exit connected only by data-only dependencies; duplicate input mappings; every attempt to
+// compile an ill-formed workflow fails
+func VerifC20WorkflowDeferred() {
+	ctx := context.Background()
+	vcfg("fifo", 1)
+	bad := vchoose("bad", 5)
+	wf := NewWorkflow[map[string]any, map[string]any]()
+	a := wf.AddLambdaNode("a", vNode("a", nil))
+	b := wf.AddLambdaNode("b", vNode("b", nil))
+	switch bad {
+	case 0: // well-formed
+		a.AddInput(START)
+		b.AddInput("a")
+		wf.End().AddInput("b")
+	case 1: // END reachable only through a data-only dependency: no exit edge
+		a.AddInput(START)
+		b.AddInput("a")
+		wf.End().AddInputWithOptions("b", nil, WithNoDirectDependency())
+	case 2: // entry only through a data-only dependency: no entry edge
+		a.AddInputWithOptions(START, nil, WithNoDirectDependency())
+		b.AddInput("a")
+		wf.End().AddInput("b")
+	case 3: // whole output mapped twice
+		a.AddInput(START)
+		b.AddInput("a")
+		b.AddInput(START)
+		wf.End().AddInput("b")
+	case 4: // same target field mapped twice
+		a.AddInput(START)
+		b.AddInput("a", ToField("f"))
+		b.AddInputWithOptions(START, []*FieldMapping{ToField("f")}, WithNoDirectDependency())
+		wf.End().AddInput("b")
+	}
+	_, err1 := wf.Compile(ctx)
+	_, err2 := wf.Compile(ctx)
+	if bad == 0 {
+		vassert(err1 == nil, "well-formed workflow compiles")
+		return
+	}
+	vassert(err1 != nil, "ill-formed workflow (missing entry/exit edge, duplicate mapping target) is rejected at Compile")
+	vassert(err2 != nil, "the same ill-formed workflow is rejected on every Compile attempt")
+}
